@@ -20,9 +20,10 @@ type cfg struct {
 	reload   bool
 	rootOp   bool
 	depth    int
-	c11      bool // recovery + crash oracles
-	c13      bool // checkpoint / rollback ops and oracle
-	maxNoDup int  // depth used when the dump is unavailable
+	c11      bool  // recovery + crash oracles
+	c13      bool  // checkpoint / rollback ops and oracle
+	maxNoDup int   // depth used when the dump is unavailable
+	snap     []int // collapse levels of the snapshot op (CopyRoot); enables updates/deletes through the snapshot
 }
 
 func (c cfg) ops() []Op {
@@ -47,6 +48,12 @@ func (c cfg) ops() []Op {
 	}
 	if c.c13 {
 		ops = append(ops, Op{K: 'P'}, Op{K: 'B'}, Op{K: 'T'})
+	}
+	for _, l := range c.snap {
+		ops = append(ops, Op{K: 'Y', Level: l})
+	}
+	if len(c.snap) > 0 {
+		ops = append(ops, Op{K: 'V', Key: c.keys[0], Val: c.vals[len(c.vals)-1]}, Op{K: 'W', Key: c.keys[0]}, Op{K: 'V', Key: c.keys[len(c.keys)-1], Val: c.vals[0]})
 	}
 	return ops
 }
@@ -84,6 +91,25 @@ func runCfg(rep *rt.Report, c cfg, deadline time.Time, classify func(w *World, l
 		OpName: func(i int) string { return ops[i].String() },
 		Enabled: func(h []uint8, op int) bool {
 			k := ops[op].K
+			if k == 'Y' || k == 'V' || k == 'W' {
+				// one snapshot per history, taken when hashes are current (right after a commit); it is written to afterwards only
+				pending, commits, snap := false, 0, false
+				for _, x := range h {
+					switch ops[x].K {
+					case 'U', 'X':
+						pending = true
+					case 'C':
+						pending = false
+						commits++
+					case 'Y':
+						snap = true
+					}
+				}
+				if k == 'Y' {
+					return !snap && !pending && commits >= 1
+				}
+				return snap
+			}
 			if k != 'L' && k != 'P' && k != 'B' && k != 'T' {
 				return true
 			}
@@ -141,6 +167,11 @@ func runCfg(rep *rt.Report, c cfg, deadline time.Time, classify func(w *World, l
 			if f := Observe(w.T, w.M, !c.c11); f != "" {
 				return classify(w, last, f)
 			}
+			if w.Snap != nil {
+				if f := Observe(w.Snap, w.SnapM, true); f != "" {
+					return classify(w, last, "the snapshot taken with CopyRoot (content {"+modelKey(w.SnapM)+"}): "+f)
+				}
+			}
 			return seq.Outcome{Key: key}
 		},
 	}
@@ -180,19 +211,22 @@ func C09(tier rt.Tier) int {
 		runs = []cfg{
 			{name: "6keys-mem+commit", keys: []int{0, 1, 2, 3, 4, 5}, vals: []string{"a", "b"}, levels: []int{0, 2, 64}, gc: true, reload: true, rootOp: true, depth: 4, maxNoDup: 3},
 			{name: "3keys-deep", keys: []int{0, 1, 2}, vals: []string{"a", "b", "c"}, levels: []int{0, 1, 3}, gc: true, reload: true, rootOp: true, depth: 6, maxNoDup: 4},
+			// a snapshot of the committed trie is a trie of its own: source and snapshot are then changed independently
+			{name: "snapshot-3keys", keys: []int{0, 1, 4}, vals: []string{"a", "b"}, levels: []int{0, 64}, snap: []int{0, 1, 64}, depth: 6, maxNoDup: 4},
 		}
 	} else {
 		per = 8 * time.Minute
 		runs = []cfg{
 			{name: "6keys-mem+commit", keys: []int{0, 1, 2, 3, 4, 5}, vals: []string{"a", "b"}, levels: []int{0, 1, 2, 3, 64}, gc: true, reload: true, rootOp: true, depth: 6, maxNoDup: 4},
 			{name: "3keys-deep", keys: []int{0, 1, 2}, vals: []string{"a", "b", "c"}, levels: []int{0, 1, 2, 3, 64}, gc: true, reload: true, rootOp: true, depth: 9, maxNoDup: 5},
+			{name: "snapshot-4keys", keys: []int{0, 1, 2, 4}, vals: []string{"a", "b"}, levels: []int{0, 1, 64}, snap: []int{0, 1, 2, 64}, depth: 8, maxNoDup: 5},
 		}
 	}
 	for _, c := range runs {
 		runCfg(rep, c, time.Now().Add(per), plainClassify)
 	}
 	rep.Set("dedup", haveDump)
-	rep.Set("rule", "BFS over all histories of {Update(k,v,weight(v)), delete, Commit(level)+batch.Commit for the listed collapse levels, DeleteNodes, reload from (root hash, weight), Root()} over 32-byte keys sharing prefixes of 63/3/2/1/0 nibbles; after every operation on a throw-away replay: Weight() = sum of live weights, Root() = independent root, for EVERY block 1..W GetBlockProof returns the cumulative-weight owner and the proof verifies to (root, owner's value); delete of an absent key must return ErrNotFound; states merged on model + dumped trie structure (dirty/collapsed flags, GC sets) + storage keys")
+	rep.Set("rule", "BFS over all histories of {Update(k,v,weight(v)), delete, Commit(level)+batch.Commit for the listed collapse levels, DeleteNodes, reload from (root hash, weight), Root(), and in the snapshot runs: snapshot = New(CopyRoot(level)) of the committed trie, updates/deletes through the snapshot} over 32-byte keys sharing prefixes of 63/3/2/1/0 nibbles; after every operation on a throw-away replay: Weight() = sum of live weights, Root() = independent root, for EVERY block 1..W GetBlockProof returns the cumulative-weight owner and the proof verifies to (root, owner's value); delete of an absent key must return ErrNotFound; a snapshot is judged like the trie itself against the content it was taken with plus its own later writes; states merged on model + dumped trie structure (dirty/collapsed flags, GC sets) + storage keys")
 	rep.Assumption("storage is an in-memory StorageAdapter with atomic batches; Pebble itself is not under test")
 	return rep.Finish()
 }
